@@ -26,5 +26,14 @@ Definition tf_ok (s : tfsample) : bool :=
 
 (** the C29 correspondence case: a ranking case of the default scorer plus tfScore samples *)
 Definition c29bcase := (c29case * list tfsample)%type.
-Definition c29b_ok (c : c29bcase) : bool := c29_ok (fst c) && forallb tf_ok (snd c).
+Definition cand_kind_in_range (c : cand) : bool :=
+  match c_kind c with
+  | KSym _ _ (Some q) => Qle_bool 0 q && Qle_bool q (c_maxKindFactor * c_scoreKindMatch)
+  | _ => true
+  end.
+Definition case_kinds_ok (c : c29case) : bool :=
+  forallb (fun f : rfin => let '(_, _, _, ms) := f in
+             forallb (forallb (fun l : Z * list rcand => forallb (fun rc => cand_kind_in_range (mk_cand rc)) (snd l))) ms)
+          (fst (fst c)).
+Definition c29b_ok (c : c29bcase) : bool := c29_ok (fst c) && case_kinds_ok (fst c) && forallb tf_ok (snd c).
 Definition c29b_mismatches (cs : list c29bcase) : list N := bad_indexes c29b_ok cs.
